@@ -12,6 +12,7 @@ EXPLANATION = (
     "(3) index updates never drop an error; (4) every Plan::IndexSeek construction is followed on every path by the re-applied property and label "
     "filters, and execute_index_seek leaves only through the index lookup or the fallback plan. Key equivalence classes (1 vs 1.0) are not decided."
     " C15.6: lookup_index returns Some(results) only on a path where results was tested non-empty (an empty answer must be None so that the seek falls back to the scan)."
+    " C15.8: every label re-filter the MATCH compiler puts on top of a scan / index seek receives the whole label list of the pattern node."
 )
 
 CREATE_INDEX = M.ENGINE + "::create_index"
@@ -28,6 +29,7 @@ def run(ctx):
     ctx.rule("C15.2", "index maintenance in commit is fed by property sets/removals AND label additions/removals AND node deletions")
     ctx.rule("C15.3", "index updates in commit do not discard errors")
     ctx.rule("C15.4", "IndexSeek plans are re-filtered; execute_index_seek exits only via lookup or fallback")
+    full_label_filter_rule(ctx)
     ctx.rule("C15.5", "every update of an index root in the catalog is followed by IndexCatalog::flush before the transaction's CommitTx record")
 
     b = ctx.body(CREATE_INDEX)
@@ -214,3 +216,31 @@ def run(ctx):
     ctx.oblige(reads_record and not delegates, "C15.7", "StorageSnapshot::node_label:not-creation-label",
                "node_label no longer answers with the creation label stored in the node-table record: the label under which commit maintains a node's index "
                "entries drifts when labels are added or removed, and IndexSeek misses rows a scan returns", nlb.file)
+
+
+def full_label_filter_rule(ctx, rid="C15.8"):
+    """the per-row label filter applied on top of a scan / index seek covers every label of the pattern node (an index holds entries of nodes that lost the label)"""
+    from ..mirutil import backward_calls
+    F = ctx.facts
+    ctx.rule(rid, "every apply_label_filters_for_alias call of the MATCH compiler receives the pattern node's whole label list (no sub-slice / skip / split in the "
+             "argument's derivation): the index behind an IndexSeek is not label-aware, so dropping the first label from the re-filter returns nodes that lost it")
+    SUB = ("::get", "::get_unchecked", "::split_first", "::split_at", "::skip", "::index", "::split_off", "::drain", "::truncate", "::remove", "::pop", "::retain")
+    n = 0
+    for i, b in sorted(F.bodies.items()):
+        if not i.startswith("nervusdb_query::query_api::match_compile"):
+            continue
+        for c in b.calls():
+            if not c.name.endswith("::apply_label_filters_for_alias") or len(c.args) < 3:
+                continue
+            n += 1
+            srcs = backward_calls(b, op_local(c.args[2]), depth=10)
+            def on_labels(x):
+                l0 = op_local(x.args[0]) if x.args else None
+                ty = b.local_ty(l0) if l0 is not None else ""
+                return "alloc::string::String" in ty and "NodePattern" not in ty and "PathElement" not in ty
+            bad = [x.name for x in srcs if (x.name.endswith(SUB) or x.declared.endswith(SUB)) and on_labels(x)]
+            ctx.instance(rid, "%s: labels argument derived through %s" % (c.loc(), sorted({x.name.split("::")[-1] for x in srcs})))
+            ctx.oblige(not bad, rid, "%s:%s:label-filter#%d:partial" % (rid, (b.root or i).split("::")[-1], c.ordinal),
+                       "the label re-filter is applied to a part of the pattern node's labels only (%s): a node that lost the omitted label is still returned when "
+                       "the start plan is an index seek" % bad[0].split("::")[-1] if bad else "", c.loc())
+    ctx.floor(rid, "label re-filter sites in the MATCH compiler", n, 4)
